@@ -175,7 +175,10 @@ where
             self.cached_leaves_indices[start + i] = 1;
         }
         self.update_hashes(start, leaves_len)?;
-        self.next_index = max(self.next_index, start + leaves_len);
+        // an empty range write changes nothing: in particular it must not move the high-water mark up to `start`
+        if leaves_len != 0 {
+            self.next_index = max(self.next_index, start + leaves_len);
+        }
         Ok(())
     }
 
